@@ -218,7 +218,7 @@ pub fn ref_parse_field(s: &str) -> Result<RelField, String> {
 pub const NAMES: &[&str] = &["a", "b", "c", "libc6", "python3-dulwich", "g++", "x.y", "0ad", "lib-foo2.0", "z"];
 pub const ARCHES: &[&str] = &["amd64", "i386", "any", "linux-any", "arm64", "hurd-i386", "all", "native"];
 pub const PROFILES: &[&str] = &["nocheck", "stage1", "cross", "nodoc", "pkg.foo.bar"];
-pub const VERSIONS: &[&str] = &["1", "1.0", "2.0-1", "1.0~rc1", "1:2.0", "0.19.0", "1:1.0~a-1+b1", "2:0", "11~", "4.5.6+dfsg-2"];
+pub const VERSIONS: &[&str] = &["1", "1.0", "2.0-1", "1.0~rc1", "1:2.0", "0.19.0", "1:1.0~a-1+b1", "2:0", "11~", "4.5.6+dfsg-2", "1:2.0-rc1-3", "3.0-beta-2-1"];
 pub const SUBSTVARS: &[&str] = &["${misc:Depends}", "${shlibs:Depends}", "${foo}", "${python3:Depends}", "${a:b:c}"];
 
 #[derive(Clone, Copy, PartialEq, Eq, Debug)]
@@ -286,6 +286,11 @@ pub fn gen_version(t: &mut Tape, epochs: bool) -> String {
         s.push(*t.pick(&chars));
     }
     if t.chance(1, 3) {
+        // with a revision, the upstream part may itself contain hyphens (the revision starts at the last one)
+        if t.chance(1, 3) {
+            s.push('-');
+            s.push(*t.pick(&chars));
+        }
         s.push('-');
         s.push(*t.pick(&['1', '2', '0']));
         for _ in 0..t.below(4) {
